@@ -488,3 +488,84 @@ Proof.
   - eapply msafe_api_analog_col; exact H.
 Qed.
 End WithOps.
+
+(* ---------- a frame of the shape the object already has changes no parameter except POINT:FRAMES ---------- *)
+Section FrameKeepsParameters.
+Variable f_key : f32 -> outcome Z.
+Variable f_tosize : f32 -> outcome N.
+Variable f_div : f32 -> f32 -> f32.
+
+Definition counts_agree (s : state) : Prop :=
+  match frames s with
+  | f0 :: _ => (exists u, r_int0 0 (groups s) nm_POINT nm_USED = Ok u /\ z_to_usize u = nlen (fr_pts f0)) /\
+               (exists a, r_int0 0 (groups s) nm_ANALOG nm_USED = Ok a /\ z_to_usize a = nan_of f0)
+  | [] => False
+  end.
+
+Theorem update_parameters_keeps_others : forall s r,
+  counts_agree s -> update_parameters f_key f_tosize f_div [] [] s = r ->
+  (exists s1, r = update_header f_key f_tosize f_div true s1 /\ frames s1 = frames s /\ hdr s1 = hdr s /\ pro s1 = pro s /\
+    (forall g n, (g <> nm_POINT \/ n <> nm_FRAMES) -> lookup (groups s1) g n = lookup (groups s) g n))
+  \/ (exists e s2, r = RThrow e s2) \/ (exists t, r = RUB t).
+Proof.
+  intros s r Hc Hr. unfold counts_agree in Hc. destruct (frames s) as [|f0 ft] eqn:Ef; [contradiction|].
+  destruct Hc as [[u [Hu Eu]] [a [Ha Ea]]].
+  unfold update_parameters in Hr. unfold bind at 1 in Hr. cbv [getS] in Hr. rewrite Ef in Hr.
+  change (nlen (@nil bstr) =? 0) with true in Hr. cbn [negb andb] in Hr. rewrite !Bool.andb_false_r in Hr.
+  unfold bind at 1 in Hr. unfold ret at 1 in Hr. unfold bind at 1 in Hr. unfold ret at 1 in Hr. unfold bind at 1 in Hr.
+  destruct (group_idx (groups s) nm_POINT) as [gi|e|t] eqn:Gi; cbn [lift] in Hr; [|right; left; eauto|right; right; eauto].
+  unfold bind at 1 in Hr. rewrite int0_pure in Hr.
+  destruct (r_int0 20 (groups s) nm_POINT nm_FRAMES) as [fz|e|t] eqn:Fz; cbn [lift] in Hr; [|right; left; eauto|right; right; eauto].
+  unfold bind at 1 in Hr.
+  match type of Hr with context [when (negb (nlen (f0 :: ft) =? z_to_usize fz)) ?body] =>
+    set (step1 := when (negb (nlen (f0 :: ft) =? z_to_usize fz)) body) in * end.
+  destruct (step1 s) as [u1 s1|e s1|t] eqn:S1; [|right; left; eauto|right; right; eauto].
+  assert (K1 : frames s1 = frames s /\ hdr s1 = hdr s /\ pro s1 = pro s /\
+               forall g n, (g <> nm_POINT \/ n <> nm_FRAMES) -> lookup (groups s1) g n = lookup (groups s) g n).
+  { unfold step1, when in S1. destruct (negb (nlen (f0 :: ft) =? z_to_usize fz)).
+    - apply bind_ok in S1. destruct S1 as [i0 [s0 [L1 S1]]]. apply lift_ok in L1. destruct L1 as [_ ->]. destruct u1.
+      pose proof (upd_param_other _ _ _ _ _ S1 (set_usize1_name _)) as Fr.
+      rewrite upd_param_pure in S1. destruct (t_upd (groups s) nm_POINT nm_FRAMES _) as [gs'| |]; try discriminate.
+      injection S1 as <-. cbn [frames hdr pro set_groups groups] in *. repeat split; auto.
+    - cbv [ret] in S1. injection S1 as _ <-. repeat split; auto. }
+  destruct K1 as [Kf [Kh [Kp Kl]]]. clear S1 step1.
+  unfold bind at 1 in Hr. unfold ret at 1 in Hr. unfold bind at 1 in Hr. rewrite int0_pure in Hr.
+  assert (Hu1 : r_int0 21 (groups s1) nm_POINT nm_USED = Ok u).
+  { unfold r_int0. rewrite (Kl nm_POINT nm_USED) by (right; discriminate). exact Hu. }
+  rewrite Hu1 in Hr. cbn [lift] in Hr. unfold bind at 1 in Hr. rewrite Eu, N.eqb_refl in Hr. cbn [negb when] in Hr. unfold ret at 1 in Hr.
+  unfold bind at 1 in Hr. cbv [getS] in Hr. unfold bind at 1 in Hr.
+  destruct (group_idx (groups s1) nm_ANALOG) as [gi2|e|t] eqn:Gi2; cbn [lift] in Hr; [|right; left; eauto|right; right; eauto].
+  unfold nan_of in Ea.
+  assert (Ha1 : r_int0 24 (groups s1) nm_ANALOG nm_USED = Ok a).
+  { unfold r_int0. rewrite (Kl nm_ANALOG nm_USED) by (left; discriminate). exact Ha. }
+  unfold bind at 1 in Hr.
+  destruct (fr_subs f0) as [|sf0 st0]; unfold ret at 1 in Hr; unfold bind at 1 in Hr; rewrite int0_pure, Ha1 in Hr; cbn [lift] in Hr;
+    unfold bind at 1 in Hr; rewrite Ea, N.eqb_refl in Hr; cbn [negb when] in Hr; unfold ret at 1 in Hr;
+    (left; exists s1; split; [symmetry; exact Hr|]; rewrite Ef in Kf; auto).
+Qed.
+End FrameKeepsParameters.
+
+Section FrameKeeps2.
+Variable f_key : f32 -> outcome Z.
+Variable f_tosize : f32 -> outcome N.
+Variable f_div : f32 -> f32 -> f32.
+Variable f_is_zero : f32 -> bool.
+
+(* frame(): when the stored data (with the new frame) have the point and channel counts the parameters already announce,
+   the call changes NO parameter except POINT:FRAMES — labels, descriptions, units, scales, offsets, rates, every other
+   group are exactly as before *)
+Theorem api_frame_keeps_parameters : forall f idx s s',
+  api_frame f_key f_tosize f_div f_is_zero f idx s = ROk tt s' ->
+  (forall fs', put empty_frame (frames s) f idx = Ok fs' -> counts_agree (set_frames s fs')) ->
+  forall g n, (g <> nm_POINT \/ n <> nm_FRAMES) -> lookup (groups s') g n = lookup (groups s) g n.
+Proof.
+  intros f idx s s' H Hc g n Hne. rewrite api_frame_factor in H.
+  destruct (frame_guard f_is_zero (groups s) (hdr s) f) as [[]|x|t]; try discriminate.
+  unfold store_and_update in H. cbv [bind getS] in H.
+  destruct (put empty_frame (frames s) f idx) as [fs'|x|t] eqn:P; cbn [lift] in H; try discriminate.
+  cbv [putS] in H. specialize (Hc fs' eq_refl).
+  destruct (update_parameters_keeps_others f_key f_tosize f_div (set_frames s fs') _ Hc H) as [[s1 [E [_ [_ [_ Kl]]]]]|[[e [s2 E]]|[t E]]]; try discriminate.
+  pose proof (keeps_update_header f_key f_tosize f_div true s1) as K. rewrite <- E in K. destruct K as [K _].
+  rewrite K. rewrite (Kl g n Hne). reflexivity.
+Qed.
+End FrameKeeps2.
